@@ -113,10 +113,17 @@ func (c *ServerConn) ServeOnce(storageClient StorageClient, stats *Stats) (err e
 			resp.Msg = msg
 			err = nil
 		} else if err == ErrOOM {
+			// the value was refused before its body was read: close after the reply,
+			// otherwise the body bytes would be parsed (and executed) as commands
+			c.Shutdown()
 			resp = new(Response)
 			resp.Status = "NOT_STORED"
 			err = nil
 		} else {
+			if err == ErrValueTooLarge {
+				// same: the announced body is still in the stream
+				c.Shutdown()
+			}
 			// process client command format related error
 			resp = new(Response)
 			resp.Status = "CLIENT_ERROR"
